@@ -114,7 +114,7 @@ def aligner_case(draw, min_peaks=1, max_peaks=8, force_params=None):
 
 
 @st.composite
-def junction_case(draw, force_params=None):
+def junction_case(draw, force_params=None, long_head=False):
     """Three or four parallel diagonals 1.2-2.5 kb apart, each seeded by its own peak, with a small maxDistance so that
     every peak pairs only the labels of its own diagonal: the reference is cut into consecutive blocks (outer blocks 3-6
     labels, inner blocks 1-3), block j lies on diagonal j, and labels next to a block boundary are also given a partner
@@ -126,6 +126,11 @@ def junction_case(draw, force_params=None):
     delta = draw(st.integers(d + 300, d + 1600))
     sign = draw(st.sampled_from([1, -1]))
     sizes = [draw(st.integers(4, 7))] + [draw(st.integers(2, 4)) for _ in range(m - 2)] + [draw(st.integers(4, 7))]
+    if long_head:
+        # the first segment runs over hundreds of labels (a contig-sized molecule): position lists longer than 255 / 256;
+        # its labels are arithmetic in the label number except for the last three before the junction
+        sizes[0] = draw(st.sampled_from([250, 256, 257, 280, 300, 330, 520]))
+    arith = sizes[0] - 3 if long_head else 0
     n = sum(sizes)
     tight = draw(st.integers(0, 3)) > 0
     ref = [draw(st.integers(20000, 60000))]
@@ -136,13 +141,16 @@ def junction_case(draw, force_params=None):
         inner = 0 < block_of[i] < m - 1 or 0 < block_of[i - 1] < m - 1
         # outer labels are further apart than the outermost diagonals (no accidental partners on a foreign diagonal)
         wide = (m - 1) * delta + 2 * d + 100
-        gap = draw(st.integers(500, 1500)) if (tight and inner) else draw(st.integers(wide, wide + 3000))
+        if i < arith:
+            gap = wide + (i * i * 31 + 7 * i) % 3000
+        else:
+            gap = draw(st.integers(500, 1500)) if (tight and inner) else draw(st.integers(wide, wide + 3000))
         ref.append(ref[-1] + gap)
     offs = [sign * j * delta for j in range(m)]          # query = ref - base - off_j on diagonal j
     q = []
     for i, r in enumerate(ref):
         j = block_of[i]
-        jit = draw(st.integers(-d // 4, d // 4))
+        jit = ((i * 37) % (d // 2 + 1)) - d // 4 if i < arith else draw(st.integers(-d // 4, d // 4))
         inner_block = 0 < j < m - 1
         if not inner_block or draw(st.integers(0, 3)) > 0:      # inner labels are sometimes left without a partner
             q.append(r - offs[j] + jit)
